@@ -380,6 +380,29 @@ pub fn run(env: &Env, run: &Run) -> (Stats, Coverage) {
             check_rule(env, CtxRule::Zwj, l, s, *pos, st);
         }));
     }
+    // (b7) rule symbols inside long ASCII labels, at every address residue: one or two of the
+    // characters the rules look for (at every offset, every small gap) in 16..41-byte labels
+    // presented as sub-slices of a larger buffer - whole-label scans that skip ASCII a word at a
+    // time split the label into an unaligned head, a body and a tail that depend on the address
+    {
+        let sym: Vec<char> = [0x30FBu32, 0x30A2, 0x3042, 0x65E5, 0x661, 0x6F1, 0xB7, 0x6C, 0x375, 0x3B1, 0x5F3, 0x5D0, ZWNJ, ZWJ, VIRAMA, D]
+            .iter()
+            .map(|c| char::from_u32(*c).unwrap())
+            .collect();
+        let fam = sparse_blocks(&sym, run.tier);
+        st.merge(run_family_placed(&fam, &placements(run.tier), |s, st| {
+            let l: Vec<u32> = s.chars().map(|c| c as u32).collect();
+            let mut ps: Vec<usize> = l.iter().enumerate().filter(|(_, c)| **c != 0x61).map(|(i, _)| i).collect();
+            ps.push(0);
+            ps.push(l.len() - 1);
+            ps.dedup();
+            for pos in ps {
+                for r in CtxRule::ALL {
+                    check_rule(env, r, &l, s, pos, st);
+                }
+            }
+        }));
+    }
     // (b6) the two scans of the ZWNJ rule as finite automata, tested for every length (W-method):
     // left context read towards the start with the right side fixed to a dual-joining letter,
     // and right context read towards the end with the left side fixed likewise
@@ -492,7 +515,7 @@ pub fn replay(env: &Env, case: &Case) -> Vec<Violation> {
         "rule" => {
             if let (Some(l), Some(pos), Some(name)) = (case.strs.first(), case.nums.first(), case.extra.as_str()) {
                 if let Some(r) = CtxRule::from_name(name) {
-                    let s = from_cps(l);
+                    let s = case.str_at(0); // at the address residue the case was found at
                     check_rule(env, r, l, &s, *pos as usize, &mut st);
                 }
             }
